@@ -35,6 +35,7 @@ def image_slices(ctx, pid, variants=genslice.VARIANTS, want=None, n_quick=8, n_t
     violations, judged, skipped = [v for v in g["violations"] if pid in v.get("props", [])], 0, 0
     g["violations"] = []
     dist = {"judged_images": 0, "executed_steps": 0, "raised": 0}
+    disagreements = []
     for job, r in zip(jobs, results):
         if r["exc"]:
             dist["raised"] += 1
@@ -49,7 +50,11 @@ def image_slices(ctx, pid, variants=genslice.VARIANTS, want=None, n_quick=8, n_t
         except Exception as e:  # a judge crash on an implementation image is itself reported
             issues = [([pid], f"judge could not analyse the image: {type(e).__name__}: {e}")]
         judged += 1
+        dist["model_static_counts_compared"] = dist.get("model_static_counts_compared", 0) + len(r.get("_model_counts") or [])
         for props, what in issues:
+            if "MODEL" in props:
+                disagreements.append({"kind": "static-count-model-vs-image", "job": job,
+                                      "what": f"{job['variant']} seed {job['seed']}: {what}"})
             if pid in props:
                 violations.append({"kind": "image-violates", "job": job, "props": props,
                                    "group": what.split(":")[0][:40] + what[-30:],
@@ -61,7 +66,7 @@ def image_slices(ctx, pid, variants=genslice.VARIANTS, want=None, n_quick=8, n_t
                  "decoder and (dynamic clauses) executed on the extracted reference machine with exact region "
                  "mapping and arbitrary initial registers / stack; judged against the property statement",
          "samples": [{"variant": jobs[0]["variant"], "seed": jobs[0]["seed"]}], "dist": dist,
-         "violations": violations, "disagreements": []}
+         "violations": violations, "disagreements": disagreements}
     return [g, j]
 
 
